@@ -5,7 +5,7 @@ from __future__ import annotations
 import importlib
 import traceback
 
-VALIDATORS = ["mc.builders.vdi", "mc.builders.hdd", "mc.builders.vhd", "mc.builders.vhdx", "mc.builders.vmdk", "mc.builders.qcow2", "mc.builders.vmxenc", "mc.builders.envelope", "mc.builders.hyperv"]
+VALIDATORS = ["mc.builders.vdi", "mc.builders.hdd", "mc.builders.vhd", "mc.builders.vhdx", "mc.builders.vmdk", "mc.builders.qcow2", "mc.builders.vmxenc", "mc.builders.envelope", "mc.builders.hyperv", "mc.builders.vmtar"]
 
 
 def main() -> int:
